@@ -57,97 +57,101 @@ func W() Expr {
 	return Expr{Wildcard('*')}
 }
 
+// The methods below return a new Expr and leave the receiver untouched: the
+// receiver is cut to its length before appending so that two expressions
+// built from the same prefix never share the element after that prefix.
+
 // A appends an At fragment to the Expr.
 func (x Expr) A() Expr {
-	return append(x, At('@'))
+	return append(x[:len(x):len(x)], At('@'))
 }
 
 // At appends an At fragment to the Expr.
 func (x Expr) At() Expr {
-	return append(x, At('@'))
+	return append(x[:len(x):len(x)], At('@'))
 }
 
 // B appends a Bracket fragment to the Expr.
 func (x Expr) B() Expr {
-	return append(x, Bracket(' '))
+	return append(x[:len(x):len(x)], Bracket(' '))
 }
 
 // C appends a Child fragment to the Expr.
 func (x Expr) C(key string) Expr {
-	return append(x, Child(key))
+	return append(x[:len(x):len(x)], Child(key))
 }
 
 // Child appends a Child fragment to the Expr.
 func (x Expr) Child(key string) Expr {
-	return append(x, Child(key))
+	return append(x[:len(x):len(x)], Child(key))
 }
 
 // D appends a recursive Descent fragment to the Expr.
 func (x Expr) D() Expr {
-	return append(x, Descent('.'))
+	return append(x[:len(x):len(x)], Descent('.'))
 }
 
 // Descent appends a recursive Descent fragment to the Expr.
 func (x Expr) Descent() Expr {
-	return append(x, Descent('.'))
+	return append(x[:len(x):len(x)], Descent('.'))
 }
 
 // F appends a Filter fragment to the Expr.
 func (x Expr) F(e *Equation) Expr {
-	return append(x, e.Filter())
+	return append(x[:len(x):len(x)], e.Filter())
 }
 
 // Filter appends a Filter fragment to the Expr.
 func (x Expr) Filter(e *Equation) Expr {
-	return append(x, e.Filter())
+	return append(x[:len(x):len(x)], e.Filter())
 }
 
 // N appends an Nth fragment to the Expr.
 func (x Expr) N(n int) Expr {
-	return append(x, Nth(n))
+	return append(x[:len(x):len(x)], Nth(n))
 }
 
 // Nth appends an Nth fragment to the Expr.
 func (x Expr) Nth(n int) Expr {
-	return append(x, Nth(n))
+	return append(x[:len(x):len(x)], Nth(n))
 }
 
 // R appends a Root fragment to the Expr.
 func (x Expr) R() Expr {
-	return append(x, Root('$'))
+	return append(x[:len(x):len(x)], Root('$'))
 }
 
 // Root appends a Root fragment to the Expr.
 func (x Expr) Root() Expr {
-	return append(x, Root('$'))
+	return append(x[:len(x):len(x)], Root('$'))
 }
 
 // S appends a Slice fragment to the Expr.
 func (x Expr) S(start int, rest ...int) Expr {
-	return append(x, Slice(append([]int{start}, rest...)))
+	return append(x[:len(x):len(x)], Slice(append([]int{start}, rest...)))
 }
 
 // Slice appends a Slice fragment to the Expr.
 func (x Expr) Slice(start int, rest ...int) Expr {
-	return append(x, Slice(append([]int{start}, rest...)))
+	return append(x[:len(x):len(x)], Slice(append([]int{start}, rest...)))
 }
 
 // U appends a Union fragment to the Expr.
 func (x Expr) U(keys ...any) Expr {
-	return append(x, NewUnion(keys...))
+	return append(x[:len(x):len(x)], NewUnion(keys...))
 }
 
 // Union appends a Union fragment to the Expr.
 func (x Expr) Union(keys ...any) Expr {
-	return append(x, NewUnion(keys...))
+	return append(x[:len(x):len(x)], NewUnion(keys...))
 }
 
 // W appends a Wildcard fragment to the Expr.
 func (x Expr) W() Expr {
-	return append(x, Wildcard('*'))
+	return append(x[:len(x):len(x)], Wildcard('*'))
 }
 
 // Wildcard appends a Wildcard fragment to the Expr.
 func (x Expr) Wildcard() Expr {
-	return append(x, Wildcard('*'))
+	return append(x[:len(x):len(x)], Wildcard('*'))
 }
